@@ -230,6 +230,26 @@ pub fn gen_ideal(seed: u64, params: &Params) -> Scenario {
             t.total = rng.range((sz.packets / 4).max(1) as u64, (sz.packets * 2) as u64) as usize;
         }
     }
+    if params.flag("tiny_bursts") && rng.chance(0.6) {
+        // the small end of the size range (C04): hundreds of 4..5-byte packets (and 0..3-byte ones
+        // on the designated channel) queued at once on a fast connection, so that data frames are
+        // filled with as many datagrams as fit
+        for t in s.traffic.iter_mut() {
+            if t.total > 0 {
+                t.len_class = LenClass::Minute;
+                t.burst = (150, *rng.pick(&[300u64, 1000, 3000]));
+                t.per_step_p = *rng.pick(&[0.02, 0.1, 0.5]);
+                t.total = t.total.max(900);
+                t.mode_w = *rng.pick(&[[0, 1, 0, 0], [0, 3, 1, 1], [1, 2, 1, 1], [0, 0, 0, 1]]);
+            }
+        }
+        for c in s.cfg.iter_mut() {
+            c.max_send_rate = *rng.pick(&[1_000_000u32, 10_000_000]);
+            c.max_receive_rate = c.max_receive_rate.max(1_000_000);
+            c.rx_alloc = c.rx_alloc.max(100_000);
+        }
+        s.window = s.window.max(1024);
+    }
     s
 }
 
